@@ -228,6 +228,12 @@ type hardStop struct{}
 //	ctx-deadline   the caller's context expires during that RPC: Done() is closed, Err() is
 //	ctx-cancel     DeadlineExceeded/Canceled, and, as a gRPC client does, that RPC and every
 //	               later one is answered with the status made from the context's error.
+//	ctx-deadline-after  the caller's context ends between that RPC and the next one: that RPC is
+//	ctx-cancel-after    still answered as usual (its response was on the way when the deadline
+//	               passed / the caller cancelled), Done() is closed and Err() set by the time the
+//	               answer is handed back, every later RPC is answered with the context's status.
+//	ctx-cancel-unheeded  as ctx-cancel-after, but the client under the interface does not look at
+//	               the context (an in-process client, an emulator): every RPC goes on being answered.
 type faultPlan struct {
 	At     int    `json:"at"`
 	Method string `json:"nth_call_of_method,omitempty"`
@@ -239,7 +245,10 @@ type faultPlan struct {
 
 func (p faultPlan) active() bool { return p.At > 0 }
 func (p faultPlan) endsCtx() bool {
-	return p.Mode == "ctx-deadline" || p.Mode == "ctx-cancel"
+	return p.Mode == "ctx-deadline" || p.Mode == "ctx-cancel" || p.endsCtxAfter()
+}
+func (p faultPlan) endsCtxAfter() bool {
+	return p.Mode == "ctx-deadline-after" || p.Mode == "ctx-cancel-after" || p.Mode == "ctx-cancel-unheeded"
 }
 
 func (p faultPlan) String() string {
@@ -290,7 +299,7 @@ func (m *model) planned(method string) error {
 		if (p.Method == "" && m.calls == p.At) || (p.Method == method && m.per[method] == p.At) {
 			m.faultFrom, m.faultHit, m.faultMethod = m.calls, true, method
 			if p.endsCtx() && m.endable != nil {
-				if p.Mode == "ctx-deadline" {
+				if p.Mode == "ctx-deadline" || p.Mode == "ctx-deadline-after" {
 					m.endable.end(context.DeadlineExceeded)
 				} else {
 					m.endable.end(context.Canceled)
@@ -319,7 +328,13 @@ func (m *model) planned(method string) error {
 			m.faultsDone++
 			return status.FromContextError(m.endable.Err()).Err()
 		}
-	default:
+	case "ctx-deadline-after", "ctx-cancel-after":
+		if m.endable != nil && m.calls > m.faultFrom {
+			m.faultsDone++
+			return status.FromContextError(m.endable.Err()).Err()
+		}
+		return nil
+	default: // also ctx-cancel-unheeded: the context has ended, the RPCs go on being answered
 		return nil
 	}
 	m.faultsDone++
